@@ -366,6 +366,7 @@ func vfProtoStr(field byte, s string) []byte {
 // after the client's end-of-stream, and when the client keeps its stream open until the call ends.
 func VerifH_proxy() {
 	defer vfCloseBackends()
+	vfRaceDetect()
 	vfPreemptions(vfBound(1, 2))
 	shape := vfChoice(4) // 0 unary, 1 client stream, 2 server stream, 3 bidi
 	name := []string{"U", "CS", "SS", "BD"}[shape]
